@@ -19,7 +19,7 @@ EXPLANATION = (
     "std::lower_bound is control-dependent on an equality test (== or !(key < *res)) besides res != end; R10.2 the range branch returns a "
     "non-negative index only under an equality test against a bound; is_valid uses binary_search / inclusive bounds; R10.3 generated "
     "domain arrays vs. schema (see C13 machinery, field part); R10.4 `_descriptions[idx]` in MessageBase::print and print_field only under "
-    "idx >= 0 with idx obtained from get_rlm_idx of the same field. NOT decided: output text.")
+    "idx >= 0 with idx obtained from get_rlm_idx of the same field; R10.5 Field<T,N>::get_rlm_idx() depends only on the realm and the current value, or every method that stores the value also stores the cached member. NOT decided: output text.")
 extra = {}
 
 
@@ -142,4 +142,36 @@ def run(ctx):
         ctx.units.add((t or gen.targets()[n])['schema'])
     extra.update({'programs': progs, 'validated': tot})
     ctx.need(tot['realms'] >= 80, 'fewer than 80 generated domains validated (%d)' % tot['realms'])
+    # ---------------- R10.5 a field's realm index is a function of (realm, current value): any other member it is derived from is a cache,
+    # and then every method that stores the value must also store that member (complete invalidation - sibling agreement over the writers)
+    # one representative per value type: the instantiation with the most member functions (the explicit instantiations of the witness unit
+    # have every member; implicit ones only the members some caller used)
+    byT = {}
+    nmeth = {}
+    for g in prog.all_functions():
+        if (g.rec or '').startswith('FIX8::Field<'):
+            nmeth[g.rec] = nmeth.get(g.rec, 0) + 1
+    for f in [f for f in prog.all_functions() if f.q.endswith('::get_rlm_idx') and (f.rec or '').startswith('FIX8::Field<') and f.tmpl in ('inst', 'spec')]:
+        T = f.rec[:f.rec.rfind(',')]
+        if T not in byT or nmeth[f.rec] > nmeth[byT[T].rec]:
+            byT[T] = f
+    for T, f in sorted(byT.items()):
+        ctx.saw(f)
+        others = sorted({n.decl['qp'] for n in f.all_nodes() if n.k == 'MemberExpr' and n.decl.get('k') == 'Field' and
+                         n.decl.get('qp') not in ('FIX8::BaseField::_rlm', 'FIX8::Field::_value')})
+        if not others:
+            ctx.ok('R10.5', f.rec + '#index-from-current-value', f.loc, 'get_rlm_idx() is computed from the realm and the current value only')
+            continue
+        methods = [g for g in prog.all_functions() if g.rec == f.rec and g.kind != 'ctor' and g.q != f.q]
+        stale = []
+        for g in methods:
+            if q.member_writes(g, 'FIX8::Field::_value'):
+                for m in others:
+                    if not q.member_writes(g, m):
+                        stale.append((g, m))
+        ctx.check(not stale, 'R10.5', f.rec + '#index-from-current-value', f.loc,
+                  'get_rlm_idx() also reads %s, and every method that stores the value stores it too' % ', '.join(others),
+                  'get_rlm_idx() answers from the member `%s`, but `%s` stores a new value without touching it: after that call the index and the '
+                  'description printed belong to the previous value' % (stale[0][1].split('::')[-1], stale[0][0].q) if stale else None)
+    ctx.floor('R10.5', 4)
     ctx.floor('R10.1', 5)
